@@ -397,7 +397,16 @@ func (tr *fnTrans) sliceOp(in *ssa.Slice) {
 		hi := opt(in.High, n)
 		mx := opt(in.Max, n)
 		tr.safe("slice", and(app("<=", "0", lo), app("<=", lo, hi), app("<=", hi, mx), app("<=", mx, n)), in.Pos())
-		tr.setVal(in, tr.v.sliceOf(p.T.Elem.Elem), mkSlice(p.S, lo, app("-", hi, lo), app("-", mx, lo)))
+		nt := tr.constVal(in, tr.v.sliceOf(p.T.Elem.Elem), mkSlice(p.S, lo, app("-", hi, lo), app("-", mx, lo)))
+		// element terms of a slice over a small fixed array (composite literals, varargs): make them available to triggers
+		if alen := xt.Elem().Underlying().(*types.Array).Len(); alen <= 4 && in.Low == nil && in.High == nil {
+			es := p.T.Elem.Elem
+			hn := "A_" + es.Tag()
+			tr.touchHeap(hn, es, true)
+			for j := int64(0); j < alen; j++ {
+				tr.hyp(app("=", app("at_"+es.Tag(), tr.curHeap(hn), nt.S, intLit(j)), sel(sel(tr.curHeap(hn), p.S), intLit(j))))
+			}
+		}
 	default:
 		tr.errorf("unsupported-construct: slice of %T", xt)
 	}
@@ -500,16 +509,50 @@ func (tr *fnTrans) ret(in *ssa.Return) {
 		env.vars[n] = rs[i]
 	}
 	k := tr.retOrd[in]
+	// a return reached through a wide merge (a switch whose cases join): one obligation per incoming case
+	var caseConds []string
+	var caseBlks []map[int]bool
+	for _, pi := range tr.cur.Instrs {
+		phi, ok := pi.(*ssa.Phi)
+		if !ok {
+			break
+		}
+		if len(phi.Edges) >= 4 {
+			for _, p := range tr.cur.Preds {
+				if c, ok := tr.edge[[2]int{p.Index, tr.cur.Index}]; ok {
+					caseConds = append(caseConds, c)
+					keep := map[int]bool{tr.cur.Index: true}
+					for _, b := range tr.fn.Blocks {
+						if b.Dominates(p) {
+							keep[b.Index] = true
+						}
+					}
+					caseBlks = append(caseBlks, keep)
+				}
+			}
+			break
+		}
+	}
 	for i, e := range c.Ensures {
 		t, err := tr.spec(e.E, env)
 		if err != nil {
 			tr.errorf("%s: ensures %s: %v", tr.key, e.Src, err)
 			continue
 		}
+		for ci, cc := range caseConds {
+			co := tr.oblige("post", fmt.Sprintf("post[%s]#ret%d.case%d", labelOr(e.Label, i), k, ci), implies(cc, t.S), e.Src, in.Pos())
+			co.onlyBlk = caseBlks[ci]
+		}
+		if len(caseConds) > 0 {
+			tr.hyp(implies(tr.inB[tr.cur], t.S))
+			continue
+		}
 		ob := tr.oblige("post", fmt.Sprintf("post[%s]#ret%d", labelOr(e.Label, i), k), t.S, e.Src, in.Pos())
 		for _, r := range rs {
 			ob.retTerms = append(ob.retTerms, r.S)
 		}
+		// clauses are proved in order; a later clause of the same return may use the earlier ones
+		tr.hyp(implies(tr.inB[tr.cur], t.S))
 	}
 	// frame: nothing allocated before entry changes unless listed
 	for _, m := range tr.mapOrder {
